@@ -316,7 +316,7 @@ func CheckKVStep(op Op, env Env, pre, post KVObs, res Result) []Violation {
 	preDoc, postDoc := DocFromRow(preRow), DocFromRow(postRow)
 	c := &checker{op: op.Name, pre: preDoc.SigClass()}
 	exp := op.Spec(preDoc, env)
-	outProps := []string{exp.OutcomeProp}
+	outProps := strings.Split(exp.OutcomeProp, ",")
 
 	if res.Panic != "" {
 		props := []string{"C01", "C08", "C17", "C20"}
@@ -353,7 +353,7 @@ func CheckKVStep(op Op, env Env, pre, post KVObs, res Result) []Violation {
 		// ---- failure / refusal: nothing changes, nothing is delivered
 		if res.Panic == "" {
 			if rowString(preRow) != rowString(postRow) {
-				props := []string{"C01", exp.OutcomeProp}
+				props := append([]string{"C01"}, outProps...)
 				if isXattrEP(op.EP) {
 					props = append(props, "C07")
 				}
